@@ -13,7 +13,14 @@ Tie: correspondence.  For every module set
     generator wrote must bind to (or that the module must be rejected), and that is compared
     with the real result — also when model and code agree;
   * canonical names of all definitions must be unique and `ir_util.find_object` must lead back
-    to the definition (checked directly on real IRs, incl. /repo/testdata/*.emb).
+    to the definition (checked directly on real IRs, incl. /repo/testdata/*.emb);
+  * (round 3) `module_ir`'s naming and placing of inline / anonymous types: every file is parsed
+    once more on its own, the *parse tree* is transcribed into the "as written" tree of the Lean
+    model (op HOIST: type definitions, inline fields, anonymous bits, plain fields / values) and
+    the model's list of types and fields (scope ++ [name], IR order) and the value of the
+    anonymous-name counter afterwards are compared with the IR `module_ir.build_ir` produced;
+    an independent closed form (`placed`, from the spec: inline types live in the nearest type
+    written as a definition and open no scope) is evaluated on the same tree.
 """
 import glob
 import json
@@ -24,7 +31,8 @@ import traceback
 
 from harness.lib import common, emb  # noqa: F401  (emb puts REPO on sys.path)
 
-from compiler.front_end import glue, symbol_resolver
+from compiler.front_end import glue, module_ir, symbol_resolver
+from compiler.util import name_conversion
 from compiler.util import ir_data, ir_data_utils, ir_util, test_util, traverse_ir, error as emb_error
 
 PROP = "C12"
@@ -361,6 +369,14 @@ def exc_key(exc):
         return "hang:" + exc.site
     tb = traceback.extract_tb(exc.__traceback__)
     fr = tb[-1] if tb else None
+    if isinstance(exc, RecursionError) and tb:
+        # where the stack limit happens to be hit is accidental: name the function that recurses
+        # (the most frequent frame)
+        freq = {}
+        for f in tb:
+            freq[(f.filename, f.name)] = freq.get((f.filename, f.name), 0) + 1
+        top = max(freq, key=lambda k: freq[k])
+        return "crash:%s:%s:RecursionError" % (os.path.basename(top[0]), top[1])
     return "crash:%s:%s:%s" % (os.path.basename(fr.filename) if fr else "?", fr.name if fr else "?",
                                type(exc).__name__)
 
@@ -406,10 +422,16 @@ def compare_model(o, ans):
     # resolve_field_references
     fr = ans["frefs"]
     if "fuel" in fr:
-        # the model's distinct out-of-fuel answer: the alias-following loop does not terminate
-        if isinstance(o["s2_exc"], HangError) and exc_key(o["s2_exc"]) == HANG_KEY:
+        # the iteration budget of the alias-following loop: never used up (C12_member_lookup_total)
+        return ["model answered `fuel`, which C12_member_lookup_total excludes; real: exc=%r errors=%r" % (
+            o["s2_exc"], o.get("s2_errors"))]
+    if "recursion" in fr:
+        # the model's distinct out-of-nesting-budget answer: a renaming whose own reference passes
+        # through itself; the Python recurses until RecursionError
+        if o["s2_exc"] is not None and exc_key(o["s2_exc"]) == RECURSION_KEY:
             return []
-        return ["model ran out of fuel; real: exc=%r errors=%r" % (o["s2_exc"], o.get("s2_errors"))]
+        return ["model: unbounded recursion of _resolve_field_reference; real: exc=%r errors=%r" % (
+            o["s2_exc"], o.get("s2_errors"))]
     m_errs = [e["err"] for e in fr if isinstance(e, dict) and "err" in e]
     m_crash = any(e == "crash" for e in fr)
     if o["s2_exc"] is not None:
@@ -435,6 +457,193 @@ def compare_model(o, ans):
         if got != real:
             diffs.append("field reference #%d: model %r real %r" % (i, e, real))
     return diffs
+
+
+# ------------------------------------------------- module_ir: inline / anonymous types (op HOIST)
+_BODIES = ("struct-body", "bits-body", "enum-body", "external-body", "anonymous-bits-body")
+_FIELDISH = {"field": "plain", "virtual-field": "plain", "enum-value": "plain",
+             "inline-enum-field-definition": "inline", "inline-struct-field-definition": "inline",
+             "inline-bits-field-definition": "inline", "anonymous-bits-field-definition": "anon"}
+_NAME_CHILD = ("type-name", "snake-name", "constant-name")
+
+
+def _pt_children(n):
+    return getattr(n, "children", None) or []
+
+
+def _pt_name(node):
+    """Text of the name a construct defines: the token under its direct `*-name` child."""
+    for ch in _pt_children(node):
+        if getattr(ch, "symbol", None) in _NAME_CHILD:
+            while _pt_children(ch):
+                ch = _pt_children(ch)[0]
+            return ch.text
+    return ""
+
+
+def _pt_collect(node, subs, fields):
+    """Type definitions and field-like constructs written directly in a body (in source order)."""
+    for ch in _pt_children(node):
+        sym = getattr(ch, "symbol", None)
+        if sym == "type-definition":
+            subs.append(_pt_typedef(ch))
+        elif sym in _FIELDISH:
+            fields.append(_pt_field(ch, _FIELDISH[sym]))
+        else:
+            _pt_collect(ch, subs, fields)
+
+
+def _pt_body_of(node):
+    for ch in _pt_children(node):
+        if getattr(ch, "symbol", None) in _BODIES:
+            return ch
+    return None
+
+
+def _pt_typedef(node):
+    inner = _pt_children(node)[0]          # struct | bits | enum | external
+    subs, fields = [], []
+    body = _pt_body_of(inner)
+    if body is not None:
+        _pt_collect(body, subs, fields)
+    return ["type", _pt_name(inner), subs, fields]
+
+
+def _pt_field(node, tag):
+    subs, fields = [], []
+    if tag != "plain":
+        body = _pt_body_of(node)
+        if body is not None:
+            _pt_collect(body, subs, fields)
+    return [tag, _pt_name(node) if tag != "anon" else "", subs, fields]
+
+
+def syntax_of(parse_tree):
+    """The type definitions of a file as written (model input of op HOIST)."""
+    subs, fields = [], []
+    _pt_collect(parse_tree, subs, fields)
+    return subs
+
+
+def number_written(nodes, counter, nums):
+    """`_get_anonymous_field_name` in the order `transform_parse_tree` calls the handlers:
+    siblings from the last to the first, a construct after everything written in it."""
+    for n in reversed(nodes):
+        number_written(n[3], counter, nums)     # fields come after the type definitions in the text
+        number_written(n[2], counter, nums)
+        if n[0] == "anon":
+            counter[0] += 1
+            nums[id(n)] = counter[0]
+
+
+def _w_fname(n, nums):
+    return "emboss_reserved_anonymous_field_%d" % nums[id(n)] if n[0] == "anon" else n[1]
+
+
+def _w_tname(n, nums):
+    return n[1] if n[0] == "type" else name_conversion.snake_to_camel(_w_fname(n, nums))
+
+
+def placed_types(host, n, nums):
+    """Closed form from the spec (independent of the Lean model): a definition lives where it is
+    written and opens a scope; an inline / anonymous type lives in the scope its field is written
+    in and opens none."""
+    if n[0] == "plain":
+        return []
+    me = host + [_w_tname(n, nums)]
+    inner = me if n[0] == "type" else host
+    out = [me]
+    for ch in n[2] + n[3]:
+        out += placed_types(inner, ch, nums)
+    return out
+
+
+def placed_fields(host, n, nums):
+    if n[0] == "plain":
+        return []
+    me = host + [_w_tname(n, nums)]
+    inner = me if n[0] == "type" else host
+    out = [me + [_w_fname(f, nums)] for f in n[3]]
+    for ch in n[2] + n[3]:
+        out += placed_fields(inner, ch, nums)
+    return out
+
+
+def real_hoist(ir):
+    types, fields = [], []
+
+    def walk(t, scope):
+        nm = t.name.name.text
+        types.append(scope + [nm])
+        if t.has_field("structure"):
+            for f in t.structure.field:
+                fields.append(scope + [nm, f.name.name.text])
+        elif t.has_field("enumeration"):
+            for v in t.enumeration.value:
+                fields.append(scope + [nm, v.name.name.text])
+        for st in t.subtype:
+            walk(st, scope + [nm])
+    for t in ir.type:
+        walk(t, [ir.source_file_name])
+    return types, fields
+
+
+def check_hoist(chk, files, model_ok, queue):
+    """Parse every file on its own (cache bypassed), compare module_ir's IR with the closed
+    form; queue the model question."""
+    for name in sorted(files):
+        text = files[name]
+        glue._cached_modules.pop((text, name), None)
+        c0 = module_ir._anonymous_name_counter
+        try:
+            res = glue.parse_module_text(text, name)
+        except Exception:  # noqa: BLE001
+            continue
+        if res.ir is None or res.debug_info.parse_tree is None:
+            continue
+        c1 = module_ir._anonymous_name_counter
+        tree = syntax_of(res.debug_info.parse_tree)
+        rt, rf = real_hoist(res.ir)
+        chk.extra["hoist_files"] = chk.extra.get("hoist_files", 0) + 1
+        def count(nodes, tag):
+            return sum((1 if n[0] == tag else 0) + count(n[2], tag) + count(n[3], tag) for n in nodes)
+        for tag in ("type", "inline", "anon"):
+            k = "hoist_written_" + tag
+            chk.extra[k] = chk.extra.get(k, 0) + count(tree, tag)
+        # spec closed form
+        cnt, nums = [c0], {}
+        number_written(tree, cnt, nums)
+        st = [t for node in tree for t in placed_types([name], node, nums)]
+        sf = [f for node in tree for f in placed_fields([name], node, nums)]
+        if (st, sf, cnt[0]) != (rt, rf, c1):
+            chk.violation("input", {"input": {name: text},
+                                    "observed": "module_ir: types %r fields %r counter %r" % (rt, rf[:20], c1),
+                                    "expected": "types %r fields %r counter %r (inline types live in the nearest "
+                                                "type written as a definition; anonymous bits are numbered from "
+                                                "the last to the first)" % (st, sf[:20], cnt[0])})
+        if model_ok:
+            queue.append((name, text, json.dumps({"module": name, "counter": c0, "types": tree},
+                                                 separators=(",", ":")), rt, rf, c1))
+
+
+def flush_hoist(chk, queue):
+    if not queue:
+        return
+    answers = common.Model("model_c12").ask(["HOIST " + q[2] for q in queue])
+    for (name, text, _line, rt, rf, c1), a in zip(queue, answers):
+        try:
+            ans = json.loads(a)
+        except ValueError:
+            ans = None
+        ok = isinstance(ans, dict) and ans.get("types") == rt and ans.get("fields") == rf \
+            and ans.get("counter") == c1
+        if not ok:
+            chk.violation("correspondence", {"input": {name: text}, "model": a[:2000],
+                                             "observed": "module_ir: types %r fields %r counter %r" % (rt, rf[:20], c1),
+                                             "theorem_or_correspondence": "model_c12 HOIST vs module_ir.build_ir"},
+                          found_input=False)
+    chk.extra["hoist_traces_validated"] = chk.extra.get("hoist_traces_validated", 0) + len(queue)
+    del queue[:]
 
 
 # ------------------------------------------------- canonical names / find_object on real IRs
@@ -1735,14 +1944,47 @@ CORPUS = [
      "two structures with the same field names", ("amb", "Pt")),
     ({"m.emb": "external Bcd:\n  [addressable_unit_size: 8]\nstruct Foo:\n  0 [+1]  Bcd  f\n"},
      "external shadowing a prelude external", ("amb", "Bcd")),
+    # fixed by 22b80e8 (was hang:symbol_resolver.py:_resolve_field_reference); fourth element: what
+    # resolve_field_references must report (a renaming that leads back to itself names no field)
+    ({"m.emb": "struct Foo:\n  0 [+1]  Foo  f\n  let g = f.g\n  let h = g.x\n"},
+     "virtual field renaming itself through a self-typed field", None, ("noncomp", "g")),
+    ({"m.emb": "struct Foo:\n  0 [+1]  Bar  f\n  let g = f.b.g\n  let h = g.x\n"
+               "struct Bar:\n  0 [+1]  Foo  b\n"},
+     "virtual field renaming itself through a second structure", None, ("noncomp", "g")),
+    ({"m.emb": "struct Foo:\n  0 [+1]  Foo  f\n  let g = f.k\n  let k = f.g\n  let h = g.x\n"},
+     "two virtual fields renaming each other", None, ("noncomp", "g")),
+    ({"m.emb": "struct Foo:\n  0 [+1]  Foo  f\n  0 [+1]  UInt  x\n  let g = f.f\n  let k = g.g\n  let h = k.g.f.x\n"},
+     "renamings through a self-typed field that do end in a physical field"),
+]
+
+# inputs for the module_ir comparison only (op HOIST): nesting of inline / anonymous constructs
+HOIST_CORPUS = [
+    {"m.emb": "struct Foo:\n  0 [+1]  bits:\n    0 [+4]  UInt  a\n  1 [+4]  struct  inl:\n    struct Ex:\n"
+              "      0 [+1]  bits:\n        0 [+1]  UInt  q\n    0 [+1]  bits:\n      0 [+4]  enum  en:\n"
+              "        AA = 1\n    1 [+1]  Ex  e\n  5 [+1]  bits:\n    0 [+4]  UInt  c\nstruct Bar:\n"
+              "  0 [+1]  bits:\n    0 [+4]  UInt  d\n"},
+    # same inline type name in two inline structs: both land in Msg (the language reference's
+    # rewriting would give Msg.Aa.Kind and Msg.Bb.Kind) - C12_inline_nesting_counterexample
+    {"m.emb": "struct Msg:\n  0 [+1]  struct  aa:\n    0 [+1]  enum  kind:\n      ON = 1\n"
+              "  1 [+1]  struct  bb:\n    0 [+1]  enum  kind:\n      OFF = 1\n"},
+    {"m.emb": "bits Foo:\n  0 [+8]  bits  lo:\n    0 [+4]  enum  e_one:\n      AA = 1\n    4 [+4]  bits  in_ner:\n"
+              "      0 [+2]  UInt  x\n  if lo.in_ner.x == 0:\n    8 [+8]  enum  hi_2:\n      BB = 2\n"
+              "  let v = lo.in_ner.x\n"},
+    {"m.emb": "enum Ee:\n  AA = 1\n  BB = 2\nexternal Xx:\n  [addressable_unit_size: 8]\n"
+              "struct Outer:\n  struct Mid:\n    bits Low:\n      0 [+1]  Flag  f\n    0 [+1]  Low  low\n"
+              "    1 [+1]  bits:\n      0 [+1]  Flag  g\n  0 [+2]  Mid  mid\n"},
 ]
 
 # narrow predicate: every error resolve_symbols reported has a synthetic location (a name inside
 # an anonymous `bits:`), so glue.process_ir defers it and goes on with unresolved references
 HIDDEN_KEY = "resolver-errors-all-hidden-as-synthetic"
 # `let g = f.g` where `f` has the enclosing structure as its type: the alias-following loop of
-# _resolve_field_reference never ends
+# _resolve_field_reference never ended (fixed by 22b80e8: visited list; the inputs are in CORPUS,
+# with the error the repaired code must report)
 HANG_KEY = "hang:symbol_resolver.py:_resolve_field_reference"
+# `let g = f.g.x`, same `f`: the reference of `g` needs the members of `g`:
+# _resolve_field_reference calls itself for the reference it is resolving, without end
+RECURSION_KEY = "crash:symbol_resolver.py:_resolve_field_reference:RecursionError"
 
 # pinned inputs of known findings: (key, files, stage)
 FINDING_INPUTS = {
@@ -1753,8 +1995,8 @@ FINDING_INPUTS = {
         {"m.emb": "[requires: Foo.BAR]\nenum Foo:\n  BAR = 1\n"},
     "crash:synthetics.py:_add_anonymous_aliases:AssertionError":
         {"m.emb": "struct Foo:\n  0 [+4]  struct  bar:\n    0 [+1]  bits:\n      0 [+1]  Flag  xx\n"},
-    HANG_KEY:
-        {"m.emb": "struct Foo:\n  0 [+1]  Foo  f\n  let g = f.g\n  let h = g.x\n"},
+    RECURSION_KEY:
+        {"m.emb": "struct Foo:\n  0 [+1]  Foo  f\n  let g = f.g.x\n"},
     HIDDEN_KEY:
         {"m.emb": 'import "imp.emb" as foo\nstruct Xyz:\n  0 [+1]  bits:\n    0 [+4]  UInt  foo\n    4 [+foo]  UInt  baz\n',
          "imp.emb": "struct Baz:\n  0 [+1]  UInt  q\n"},
@@ -1815,6 +2057,13 @@ def evaluate(chk, cases, model_ok, label):
                                             "observed": "resolve_symbols: errors %r, bindings %r" % (got, o.get("s1_refs")),
                                             "expected": "rejected with %r (language reference: a name visible from "
                                                         "two scopes is ambiguous)" % (c["expect"],)})
+            if c.get("expect2") is not None and exc is None:
+                got = [(e[0], e[1]) for e in (o.get("s2_errors") or [])]
+                if tuple(c["expect2"]) not in got:
+                    chk.violation("input", {"input": c["files"],
+                                            "observed": "resolve_field_references: errors %r, bindings %r" % (got, o.get("s2_paths")),
+                                            "expected": "rejected with %r (a virtual field that renames "
+                                                        "itself names no field)" % (c["expect2"],)})
             if exc is not None:
                 chk.violation("input", {"input": c["files"], "observed": "exception %r" % (exc,),
                                         "expected": "IR or located errors"},
@@ -1871,6 +2120,8 @@ def classify(o, ans):
         fr = ans["frefs"]
         if any(e == "crash" for e in fr):
             return "member-crash"
+        if any(e == "recursion" for e in fr):
+            return "member-recursion"
         errs = sorted(set(e["err"][0] for e in fr if isinstance(e, dict) and "err" in e))
         if errs:
             return "member-rejected:" + "+".join(errs)
@@ -1953,7 +2204,8 @@ def known_findings(chk):
 
 
 def corpus_cases():
-    return [{"files": c[0], "expect": c[2] if len(c) > 2 else None} for c in CORPUS]
+    return [{"files": c[0], "expect": c[2] if len(c) > 2 else None,
+             "expect2": c[3] if len(c) > 3 else None} for c in CORPUS]
 
 
 def generated_cases(r, n, size):
@@ -1972,6 +2224,8 @@ def search(chk):
     before = len(chk.violations)
     r = common.rng("C12-search")
     cases, _f = generated_cases(r, 400, 4)
+    for c in corpus_cases() + [{"files": f} for f in HOIST_CORPUS] + cases:
+        check_hoist(chk, c["files"], False, [])
     evaluate(chk, corpus_cases() + cases, False, "search")
     return len(chk.violations) - before
 
@@ -1986,6 +2240,15 @@ def run(tier):
     model_ok = common.proof_gate(chk, search)
     known_findings(chk)
     observe_testdata(chk, model_ok)
+    hq = []
+    td = {}
+    for pth in sorted(glob.glob(os.path.join(common.REPO, "testdata", "**", "*.emb"), recursive=True)):
+        td[os.path.relpath(pth, common.REPO)] = open(pth).read()
+    td["compiler/front_end/prelude.emb"] = open(os.path.join(common.REPO, "compiler", "front_end", "prelude.emb")).read()
+    check_hoist(chk, td, model_ok, hq)
+    for c in corpus_cases() + [{"files": f} for f in HOIST_CORPUS]:
+        check_hoist(chk, c["files"], model_ok, hq)
+    flush_hoist(chk, hq)
     evaluate(chk, corpus_cases(), model_ok, "corpus")
     evaluate(chk, [{"files": f} for f in FINDING_INPUTS.values()], model_ok, "finding inputs")
     r = common.rng("C12")
@@ -1993,6 +2256,9 @@ def run(tier):
     cases, feats = generated_cases(r, n, 4 if tier == "quick" else 5)
     chk.extra["generator_features"] = feats
     for k in range(0, len(cases), 400):      # chunks: the observed IRs are kept until the model answered
+        for c in cases[k:k + 400]:
+            check_hoist(chk, c["files"], model_ok, hq)
+        flush_hoist(chk, hq)
         obs = evaluate(chk, cases[k:k + 400], model_ok, "generated")
         if k == 0:
             for c, o in list(zip(cases, obs))[:3]:
